@@ -152,4 +152,104 @@ theorem dsbKeys_eq (o : Opts) (items : List (Item κ)) : dsbKeys o items = dsbOn
 
 end Views
 
+-- ------------------------------------------------------------------ the composed TLS machine
+section Composed
+variable (H : Crypto.Prims) (P : Cipher.Prims) (info : Nat → Pipeline.Info)
+
+theorem foldl_feed (c : Pipeline.Conn) (more : List Pkt) :
+    more.foldl (Pipeline.tlsMachine H P info).feed c = { c with pkts := c.pkts ++ more } := by
+  induction more generalizing c with
+  | nil => simp
+  | cons p ps ih =>
+    rw [List.foldl_cons, ih]
+    simp [Pipeline.tlsMachine]
+
+/-- the conversation `a` is the conversation `b` cut after its first `k` packets: same roles, addresses, options -/
+def ConnCut (a b : TlsSess Pipeline.Conn) : Prop :=
+  a.server = b.server ∧ a.client = b.client ∧ ∃ k, a.st = { b.st with pkts := b.st.pkts.take k }
+
+theorem connCut_of_ext {a b : TlsSess Pipeline.Conn} (h : SessExt (Pipeline.tlsMachine H P info) a b) : ConnCut a b := by
+  obtain ⟨h1, h2, more, h3⟩ := h
+  refine ⟨h1.symm, h2.symm, a.st.pkts.length, ?_⟩
+  rw [h3, foldl_feed]
+  simp
+
+end Composed
+
+-- ------------------------------------------------------------------ `framesFrom` once the options parse
+/-- the options the loop runs with (`none`: an unusable `-p` / `-m` value, no output) -/
+def optsOf (args : Args) : Option Opts :=
+  match Options.getPortMap Options.Src.bare args.mArg with
+  | .error _ => none
+  | .ok pm =>
+    match Options.serverPorts Options.Src.builtin Options.Src.pDefault args.pArg with
+    | .error _ => none
+    | .ok ports => some ⟨ports, args.checksumTest, args.greasy, args.metadata, Options.keepOriginalPorts args.mArg, pm⟩
+
+/-- the key log at the end of the run: the `-s` file, then the DSB items in order -/
+def keysOf (fk : Option (List Keylog.Key)) (xs : List (Item Keylog.Key)) : List Keylog.Key := fk.getD [] ++ dsbOnly xs
+
+section Frames
+variable (mask : Quic.Dissect.MaskFn) (H : Crypto.Prims) (P : Cipher.Prims) (info : Nat → Pipeline.Info)
+
+/-- the TLS conversations of a run, in creation order -/
+def tlsConvs (o : Opts) (xs : List (Item Keylog.Key)) : List (TlsSess Pipeline.Conn) :=
+  tlsRun (Pipeline.tlsMachine H P info) o [] (tcpView o xs)
+
+/-- the frames one conversation contributes to the output -/
+def convFrames (kl : List Keylog.Key) (s : TlsSess Pipeline.Conn) : List Pipeline.OutPkt :=
+  (Pipeline.connOut H P info s.st kl).getD []
+
+/-- the TLS part of the output, conversation by conversation -/
+def tlsFrames (o : Opts) (fk : Option (List Keylog.Key)) (xs : List (Item Keylog.Key)) : List (List Pipeline.OutPkt) :=
+  (tlsConvs H P info o xs).map (convFrames H P info (keysOf fk xs))
+
+theorem framesFrom_ok (prior : Export.Prior) (args : Args) (fk : Option (List Keylog.Key))
+    (xs : List (Item Keylog.Key)) (o : Opts) (ho : optsOf args = some o) :
+    ∃ quicPart, Export.framesFrom mask H P prior args fk xs info
+      = .ok ((tlsFrames H P info o fk xs).flatten ++ quicPart) := by
+  unfold optsOf at ho
+  unfold Export.framesFrom runFrom body
+  rw [Props.C18.reset_is_fresh]
+  cases hpm : Options.getPortMap Options.Src.bare args.mArg with
+  | error e => rw [hpm] at ho; cases ho
+  | ok pm =>
+    rw [hpm] at ho
+    simp only at ho ⊢
+    have hsp : (freshState : Export.Prior).serverPorts = Options.Src.builtin := rfl
+    rw [hsp]
+    cases hp : Options.serverPorts Options.Src.builtin Options.Src.pDefault args.pArg with
+    | error e => rw [hp] at ho; cases ho
+    | ok ports =>
+      rw [hp] at ho
+      simp only [Option.some.injEq] at ho
+      subst ho
+      simp only
+      obtain ⟨h1, h2, h3⟩ := runItems_proj (Pipeline.tlsMachine H P info) (QuicPipeline.quicMachine mask H P info)
+        ⟨ports, args.checksumTest, args.greasy, args.metadata, Options.keepOriginalPorts args.mArg, pm⟩ xs
+        ({ (freshState : Export.Prior).st with keylog := (freshState : Export.Prior).st.keylog ++ fk.getD [] })
+      refine ⟨(runItems (Pipeline.tlsMachine H P info) (QuicPipeline.quicMachine mask H P info)
+        ⟨ports, args.checksumTest, args.greasy, args.metadata, Options.keepOriginalPorts args.mArg, pm⟩
+        ({ (freshState : Export.Prior).st with keylog := (freshState : Export.Prior).st.keylog ++ fk.getD [] }) xs).quic.flatMap
+          (fun s => (QuicPipeline.quicMachine mask H P info).out args.metadata s.st), ?_⟩
+      simp only [exportAll, h1, h2, dsbKeys_eq, List.nil_append, tlsFrames, tlsConvs, keysOf, List.flatMap_def]
+      rfl
+
+theorem framesFrom_ok_opts (prior : Export.Prior) (args : Args) (fk : Option (List Keylog.Key))
+    (xs : List (Item Keylog.Key)) (out : List Pipeline.OutPkt)
+    (h : Export.framesFrom mask H P prior args fk xs info = .ok out) : ∃ o, optsOf args = some o := by
+  unfold optsOf
+  unfold Export.framesFrom runFrom body at h
+  rw [Props.C18.reset_is_fresh] at h
+  have hsp : (freshState : Export.Prior).serverPorts = Options.Src.builtin := rfl
+  rw [hsp] at h
+  cases hpm : Options.getPortMap Options.Src.bare args.mArg with
+  | error e => rw [hpm] at h; cases h
+  | ok pm =>
+    cases hp : Options.serverPorts Options.Src.builtin Options.Src.pDefault args.pArg with
+    | error e => rw [hpm, hp] at h; cases h
+    | ok ports => exact ⟨_, rfl⟩
+
+end Frames
+
 end TLX.Lemmas.ExportProps
